@@ -1,0 +1,49 @@
+//go:build verif
+
+// Contracts for package leanhelix (root), read by /verif/govc (comment-only: no declarations, no effect on any build).
+
+package leanhelix
+
+//@ func (*WorkerLoop).ValidateBlockConsensus
+//@   props C02 C12
+//@   requires lh.config != nil
+//@   ensures [sound.block] result == nil ==> block != nil && len(blockProofBytes) > 0
+//@   ensures [sound.type] result == nil ==> protocol.BlockProofReader(blockProofBytes).BlockRef().MessageType() == protocol.LEAN_HELIX_COMMIT
+//@   ensures [sound.instance] result == nil ==> protocol.BlockProofReader(blockProofBytes).BlockRef().InstanceId() == lh.config.InstanceId
+//@   ensures [sound.height] result == nil ==> protocol.BlockProofReader(blockProofBytes).BlockRef().BlockHeight() == block.Height()
+//@   ensures [sound.commitment] result == nil ==> Commits(lh.config.BlockUtils, block.Height(), block, protocol.BlockProofReader(blockProofBytes).BlockRef().BlockHash())
+//@   ensures [sound.all-nodes-read] result == nil ==> len(senderIds) == seq_len(protocol.BlockProofReader(blockProofBytes), "Nodes")
+//@   ensures [sound.ids] result == nil ==> (forall k :: 0 <= k && k < len(senderIds) ==> senderIds[k] == seq_at(protocol.BlockProofReader(blockProofBytes), "Nodes", k).MemberId())
+//@   ensures [sound.signatures] result == nil ==> (forall k :: 0 <= k && k < len(senderIds) ==>
+//@     | VerifiedMsg(lh.config.KeyManager, protocol.BlockProofReader(blockProofBytes).BlockRef().BlockHeight(), protocol.BlockProofReader(blockProofBytes).BlockRef().Raw(),
+//@     |   seq_at(protocol.BlockProofReader(blockProofBytes), "Nodes", k).MemberId(), seq_at(protocol.BlockProofReader(blockProofBytes), "Nodes", k).Signature()))
+//@   ensures [sound.members] result == nil ==> (forall k :: 0 <= k && k < len(senderIds) ==> (exists i :: 0 <= i && i < len(committeeMembers) && committeeMembers[i].Id == senderIds[k]))
+//@   ensures [sound.distinct] result == nil ==> (forall j, k :: 0 <= j && j < k && k < len(senderIds) ==> senderIds[j] != senderIds[k])
+//@   ensures [sound.committee] result == nil ==> committeeMembers == CommitteeOf(lh.config.Membership, ctx, blockheight.GetBlockHeight(block), blockreferencetime.GetBlockReferenceTime(prevBlock))
+//@   ensures [sound.weight.strict] result == nil && !softVerify ==> SW(senderIds, committeeMembers, len(committeeMembers)) >= Qz(SumMW(committeeMembers, len(committeeMembers)))
+//@   ensures [sound.weight.soft] result == nil && softVerify ==> SW(senderIds, committeeMembers, len(committeeMembers)) > Fz(SumMW(committeeMembers, len(committeeMembers)))
+//@   ensures [sound.seed.present] result == nil ==> len(protocol.BlockProofReader(blockProofBytes).RandomSeedSignature()) > 0
+//@   ensures [sound.seed.verified] result == nil ==> VerifiedSeed(lh.config.KeyManager, block.Height(), SeedBytes(SeedOf(protocol.BlockProofReader(maybePrevBlockProofBytes).RandomSeedSignature())), emptyStr, protocol.BlockProofReader(blockProofBytes).RandomSeedSignature())
+//@   loop iter sendersIterator
+//@     invariant [src] iter_src(sendersIterator) == blockProof && blockProof == protocol.BlockProofReader(blockProofBytes) && blockRefFromProof == blockProof.BlockRef()
+//@     invariant [pos] iter_pos(sendersIterator) == len(senderIds) && set != nil && iter_pos(sendersIterator) <= seq_len(blockProof, "Nodes")
+//@     invariant [ids] forall k :: 0 <= k && k < len(senderIds) ==> senderIds[k] == seq_at(blockProof, "Nodes", k).MemberId()
+//@     invariant [signatures] forall k :: 0 <= k && k < len(senderIds) ==> VerifiedMsg(lh.config.KeyManager, blockRefFromProof.BlockHeight(), blockRefFromProof.Raw(), seq_at(blockProof, "Nodes", k).MemberId(), seq_at(blockProof, "Nodes", k).Signature())
+//@     invariant [members] forall k :: 0 <= k && k < len(senderIds) ==> (exists i :: 0 <= i && i < len(committeeMembers) && committeeMembers[i].Id == senderIds[k])
+//@     invariant [set] forall x Str :: set[x] == (exists k :: 0 <= k && k < len(senderIds) && content(senderIds[k]) == x)
+//@     invariant [distinct] forall j, k :: 0 <= j && j < k && k < len(senderIds) ==> senderIds[j] != senderIds[k]
+
+//@ func (*MainLoop).ValidateBlockConsensus
+//@   props C02
+//@   requires m.worker != nil && m.worker.config != nil
+//@   ensures [delegates] true
+
+//@ func GetMemberIdsFromBlockProof
+//@   props C02 C12
+//@   ensures [empty.err] len(blockProofBytes) == 0 ==> result1 != nil
+//@   ensures [ok] len(blockProofBytes) > 0 ==> result1 == nil && len(result0) == seq_len(protocol.BlockProofReader(blockProofBytes), "Nodes")
+//@   ensures [ids] len(blockProofBytes) > 0 ==> (forall k :: 0 <= k && k < len(result0) ==> result0[k] == seq_at(protocol.BlockProofReader(blockProofBytes), "Nodes", k).MemberId())
+//@   loop iter sendersIterator
+//@     invariant [src] iter_src(sendersIterator) == protocol.BlockProofReader(blockProofBytes)
+//@     invariant [pos] iter_pos(sendersIterator) == len(committeeMembers) && iter_pos(sendersIterator) <= seq_len(protocol.BlockProofReader(blockProofBytes), "Nodes")
+//@     invariant [ids] forall k :: 0 <= k && k < len(committeeMembers) ==> committeeMembers[k] == seq_at(protocol.BlockProofReader(blockProofBytes), "Nodes", k).MemberId()
